@@ -29,6 +29,7 @@ import (
 	"net"
 	"runtime/debug"
 	"strconv"
+	"strings"
 	"sync"
 	"time"
 
@@ -666,6 +667,8 @@ func (c *Client) readResponse() error {
 	if !c.dec.ExpectAtom(&typ) {
 		return fmt.Errorf("in response: cannot read type: %v", c.dec.Err())
 	}
+	// Response names are case-insensitive (RFC 9051 section 9)
+	typ = strings.ToUpper(typ)
 
 	var (
 		token    string
@@ -744,6 +747,7 @@ func (c *Client) readResponseTagged(tag, typ string) (startTLS *startTLSCommand,
 		if !c.dec.ExpectAtom(&code) {
 			return nil, fmt.Errorf("in resp-text-code: %v", c.dec.Err())
 		}
+		code = strings.ToUpper(code)
 		// TODO: LONGENTRIES and MAXSIZE from METADATA
 		switch code {
 		case "CAPABILITY": // capability-data
@@ -852,6 +856,7 @@ func (c *Client) readResponseData(typ string) error {
 		if !c.dec.ExpectSP() || !c.dec.ExpectAtom(&typ) {
 			return c.dec.Err()
 		}
+		typ = strings.ToUpper(typ)
 	}
 
 	switch typ {
@@ -865,6 +870,7 @@ func (c *Client) readResponseData(typ string) error {
 			if !c.dec.ExpectAtom(&code) {
 				return fmt.Errorf("in resp-text-code: %v", c.dec.Err())
 			}
+			code = strings.ToUpper(code)
 			switch code {
 			case "CAPABILITY": // capability-data
 				caps, err := readCapabilities(c.dec)
